@@ -531,6 +531,57 @@ def refute_small(pc, goal, lengths, timeout_ms=3000):
     return "unknown", None, dt
 
 
+def _uninterpreted_functions(fmls):
+    seen, out = set(), {}
+
+    def walk(e):
+        if e.get_id() in seen:
+            return
+        seen.add(e.get_id())
+        if z3.is_quantifier(e):
+            walk(e.body())
+            return
+        if z3.is_app(e):
+            d = e.decl()
+            if d.kind() == z3.Z3_OP_UNINTERPRETED and d.arity() > 0:
+                out[d.name()] = d
+            for c in e.children():
+                walk(c)
+    for f in fmls:
+        walk(f)
+    return out
+
+
+def refute_constant_world(pc, goal, timeout_ms=3000):
+    """Counter-model search among the interpretations in which every uninterpreted function is a constant function: each f is replaced
+    by a fresh constant f!const (z3.substitute_funs), which removes the function symbols the model-based quantifier instantiation
+    stumbles over.  A model of the substituted query is a model of the original one (read f as the constant function), so `sat` is a
+    genuine counter-model of pc |= goal; anything else leaves the verdict unknown."""
+    t = time.time()
+    try:
+        fmls = list(pc) + [z3.Not(goal)]
+        fs = _uninterpreted_functions(fmls)
+        if not fs:
+            return "unknown", None, 0.0
+        subs = [(d, z3.Const(name + "!const", d.range())) for name, d in fs.items()]
+        s = z3.Solver()
+        s.set("timeout", timeout_ms)
+        for f in fmls:
+            s.add(z3.substitute_funs(f, *subs))
+        timer = threading.Timer(timeout_ms / 1000.0 + 2.0, lambda: z3.main_ctx().interrupt())
+        timer.daemon = True
+        timer.start()
+        try:
+            r = s.check()
+        finally:
+            timer.cancel()
+        if r == z3.sat:
+            return "sat", s.model(), time.time() - t
+    except Exception:
+        pass
+    return "unknown", None, time.time() - t
+
+
 def smt2_of(pc, goal):
     s = z3.Solver()
     s.add(*pc)
